@@ -178,6 +178,11 @@ fn exec(req: &Value) -> R<Value> {
     };
     let mut program = il::Program::new();
     program.add_function(function);
+    if let Some(fs) = req["more_functions"].as_array() {
+        for f in fs {
+            program.add_function(ilread::function(f)?);
+        }
+    }
     let mut mem: executor::Memory = if req["segments"].is_array() && req["backed"].as_bool().unwrap_or(false) {
         memory::paged::Memory::new_with_backing(endian.clone(), RC::new(backing_from(req, a.endian())?))
     } else {
@@ -235,7 +240,7 @@ fn exec(req: &Value) -> R<Value> {
             };
             match rl.instruction() {
                 Some(i) => {
-                    if (i.is_branch() && !follow_branches) || fwd.is_empty() {
+                    if (i.is_branch() && !follow_branches) || (fwd.is_empty() && !(i.is_branch() && follow_branches)) {
                         terminal_op = Some(i.operation().clone());
                     }
                 }
@@ -303,9 +308,13 @@ fn exec(req: &Value) -> R<Value> {
             watch.push(json!([addr, v.map(|c| c.value_u64())]));
         }
     }
+    let (final_address, final_function) = match driver.location().apply(driver.program()) {
+        Ok(rl) => (json!(rl.address()), json!(rl.function().index())),
+        Err(_) => (Value::Null, Value::Null),
+    };
     Ok(json!({
         "ok": true, "trace": trace, "steps_done": done, "error": error, "branch_target": branch_target,
-        "final_location": loc_json(driver.location()),
+        "final_location": loc_json(driver.location()), "final_address": final_address, "final_function": final_function,
         "scalars": scalars, "watch": watch,
     }))
 }
